@@ -9,7 +9,7 @@
   * `view_inv_*`       — the constructors establish `Inv`, every operation preserves it, for all histories.
   * codec theorems.
 -/
-import GojaModel.C17.Refine
+import GojaModel.C17.Overlap
 
 namespace GojaModel.C17
 
@@ -438,6 +438,76 @@ theorem setTA_sameKind_bytes_eq_spec (s : State) (vi si : Nat) (v src : View) (o
           · rw [move_data _ _ _ _ _ _ ds hds, if_pos rfl, hdd]; rfl
           · intro b' hb'
             rw [move_data _ _ _ _ _ _ ds hds, if_neg hb']
+
+theorem set_sameSize_live_eq_clone' (f : List UInt8 → List UInt8) (d : List UInt8) (srcLo dstLo n sES dES : Nat) (h : sES = dES) :
+    (Xfer.mk f sES dES srcLo dstLo).live d (setOrderSame srcLo dstLo n sES) =
+    (Xfer.mk f sES dES srcLo dstLo).clone d d (List.range n) := by
+  subst h; exact set_sameSize_live_eq_clone f d srcLo dstLo n sES
+
+/-- goja's visiting order in `set` between typed arrays of different element types (builtin_typedarrays.go:1027-1058) -/
+def gojaSetOrder (srcLo dstLo sES dES n : Nat) : List Nat :=
+  if sES = dES then setOrderSame srcLo dstLo n sES else setOrderDiff srcLo dstLo sES dES n
+
+/-- **bytes_eq_spec (set, different element types, one buffer)** — the bytes the model leaves behind (ECMA-262: clone the
+source, convert, write) are exactly what goja's mechanism computes: element-by-element conversion with LIVE reads in the
+order chosen by the pointer comparison (same element size) or by the split index (different sizes). For every position
+of the two views on the buffer, every length, every pair of kinds. -/
+theorem setTA_diffKind_bytes_eq_goja (s : State) (vi si : Nat) (v src : View) (off : Option IArg)
+    (hv : s.views[vi]? = some v) (hs : s.views[si]? = some src) (hk : (src.kind == v.kind) = false)
+    (hbuf : src.buf = v.buf) (hok : (opSetTA s vi si off).1 = .ok) :
+    ∃ d, (s.applyDet (oDet off)).data? v.buf = some d ∧
+      (opSetTA s vi si off).2.data? v.buf = some
+        ((Xfer.mk (convBytes src.kind v.kind) src.kind.size v.kind.size (src.offset * src.kind.size)
+            ((v.offset + (oVal off 0).toNat) * v.kind.size)).live d
+          (gojaSetOrder (src.offset * src.kind.size) ((v.offset + (oVal off 0).toNat) * v.kind.size)
+            src.kind.size v.kind.size src.length)) := by
+  unfold opSetTA at hok ⊢; rw [hv, hs] at hok ⊢; dsimp only at hok ⊢
+  by_cases hoff : oVal off 0 < 0
+  · rw [if_pos hoff] at hok; simp at hok
+  · rw [if_neg hoff] at hok ⊢
+    by_cases ha : (!(s.applyDet (oDet off)).attached v.buf) = true
+    · rw [if_pos ha] at hok; simp at hok
+    · rw [if_neg ha] at hok ⊢
+      by_cases has : (!(s.applyDet (oDet off)).attached src.buf) = true
+      · rw [if_pos has] at hok; simp at hok
+      · rw [if_neg has] at hok ⊢
+        by_cases hfit : (src.length : Int) + oVal off 0 > (v.length : Int)
+        · rw [if_pos hfit] at hok; simp at hok
+        · rw [if_neg hfit] at hok ⊢
+          have hkk : ¬ (src.kind == v.kind) = true := by simp [hk]
+          rw [if_neg hkk] at hok ⊢
+          by_cases hbig : (src.kind.isBig && !v.kind.isBig) = true
+          · rw [if_pos hbig] at hok; simp at hok
+          · rw [if_neg hbig] at hok ⊢
+            obtain ⟨d, hd⟩ := data_of_attached (not_not_attached ha)
+            have hds : (s.applyDet (oDet off)).data? src.buf = some d := by rw [hbuf]; exact hd
+            obtain ⟨rv, rd⟩ := readElems_eq src d src.length (s.applyDet (oDet off)) 0 hds
+            cases hc : convElems src.kind v.kind (readElems (s.applyDet (oDet off)) src 0 src.length).1 with
+            | none => rw [hc] at hok; simp at hok
+            | some ys =>
+              dsimp only
+              refine ⟨d, hd, ?_⟩
+              have hys := convElems_eq_map _ _ _ _ hc
+              rw [rv, List.map_map] at hys
+              let X : Xfer := Xfer.mk (convBytes src.kind v.kind) src.kind.size v.kind.size (src.offset * src.kind.size)
+                ((v.offset + (oVal off 0).toNat) * v.kind.size)
+              have hys' : ys = (List.range' 0 src.length).map (fun i => X.f (window d (X.srcLo + i * X.sES) X.sES)) := by
+                rw [hys]
+                apply List.map_congr_left
+                intro i _
+                show convBytes src.kind v.kind (window d ((src.offset + i) * src.kind.size) src.kind.size) = _
+                rw [Nat.add_mul]
+              have hw := writeElems_clone v X d (oVal off 0).toNat rfl rfl src.length 0
+                (readElems (s.applyDet (oDet off)) src 0 src.length).2 d (by rw [rd]; exact hd)
+              rw [Nat.add_zero, ← hys'] at hw
+              rw [hw, ← List.range_eq_range']
+              congr 1
+              unfold gojaSetOrder
+              split
+              · rename_i he
+                exact (set_sameSize_live_eq_clone' _ d _ _ _ _ _ he).symm
+              · rename_i hne
+                exact (set_diffSize_live_eq_clone _ d _ _ _ _ _ hne).symm
 
 /-! ## the copyWithin defect of the pinned commit, as a witness on the model without the clamp -/
 
